@@ -23,6 +23,9 @@ import (
 
 func init() {
 	Register(&Scenario{Prop: "C17", Name: "ro-mount", Strict: true, Quick: 10, Thorough: 10, Run: runC17})
+	// mode A with the in-memory yield points of pkg/cafs switched on: concurrent callers of a streamed mount share one
+	// leaf cache; a caller holding a pinned buffer can be overtaken by the others' insertions and evictions
+	Register(&Scenario{Prop: "C17", Name: "ro-mount-yields", Strict: true, Quick: 4, Thorough: 5, Cfg: simkit.Config{Yields: true}, Run: runC17})
 	// mode B: the same programs from more callers, scheduler off and real parallelism, for the -race build (the
 	// request paths that never reach a store call have no seam the scheduler could interleave)
 	Register(&Scenario{Prop: "C17", Name: "race-stress", Strict: false, Quick: 0, Thorough: 0, NoBubble: true, Run: runC17})
